@@ -257,6 +257,64 @@ def body_history(case, ctx):
     ctx.event("in-place-switch" if inplace else "fresh-array-switches")
 
 
+# ------------------------------------------------------------------ whole-number data / queries in other array forms
+@st.composite
+def form_cases(draw):
+    d = draw(st.integers(1, 3))
+    n = draw(st.integers(3, 7))
+    pts = draw(st.lists(st.tuples(*[st.integers(-6, 6)] * d), min_size=n, max_size=n, unique=True))
+    return {"seed": draw(st.integers(0, 2**31)), "d": d, "n": n, "x": [list(t) for t in pts], "y": [draw(st.integers(-9, 9)) for _ in range(n)],
+            "err": [draw(st.integers(1, 3)) for _ in range(n)], "noise": draw(st.sampled_from(["none", "y_err"])),
+            "q": [[draw(st.integers(-7, 7)) for _ in range(d)] for _ in range(draw(st.integers(1, 3)))],
+            "mean": draw(st.sampled_from(["Constant", "Linear", "Quadratic"])), "theta": [draw(st.floats(-1.0, 1.5)) for _ in range(11)],
+            "forms": {k: draw(st.sampled_from(["float64", "int64", "int32", "float32", "fortran", "strided"])) for k in ("x", "y", "err", "q")}}
+
+
+def body_forms(case, ctx):
+    from props.c02_gp_posterior import as_form
+
+    d, n = case["d"], case["n"]
+    X, y, err, Q = (np.array(case[k], dtype=float) for k in ("x", "y", "err", "q"))
+    X, Q = X.reshape(n, d), Q.reshape(-1, d)
+    if np.ptp(y) == 0:
+        raise Inconclusive("constant data")
+    theta = np.array(case["theta"][: rk.mean_n_params(case["mean"], d) + 1 + d], dtype=float)
+    f = case["forms"]
+
+    def build(fx, fy, fe):
+        kw = {"y_err": as_form(err, fe)} if case["noise"] == "y_err" else {}
+        return fit(as_form(X, fx), as_form(y, fy), kw, {"k": "SE"}, case["mean"], theta.copy())
+
+    try:
+        ref, gp = build("float64", "float64", "float64"), build(f["x"], f["y"], f["err"])
+    except np.linalg.LinAlgError:
+        raise Inconclusive("Cholesky failed")
+    kappa = np.linalg.cond(ref.K_xx)
+    if not np.isfinite(kappa) or kappa > 1e8:
+        raise Inconclusive("ill-conditioned")
+    tol = 1e-9 + 1000 * kappa * EPS
+    if "float32" in f.values():
+        tol = max(tol, 1e-5 * max(kappa, 1.0))
+    what = ", ".join(f"{k}={v}" for k, v in f.items())
+    for meth in ("gradient", "spatial_derivatives"):
+        with np.errstate(all="ignore"):
+            want = getattr(ref, meth)(Q.copy())
+            got = getattr(gp, meth)(as_form(Q, f["q"]))
+        for name, g_, w_ in zip(("mean", "covariance / variance"), got, want):
+            g_, w_ = np.asarray(g_, dtype=float), np.asarray(w_, dtype=float)
+            if g_.shape != w_.shape:
+                raise Violation(f"forms-shape:{meth}", f"[{what}] {name}: shape {g_.shape} vs {w_.shape} from float64 arrays")
+            sc = np.max(np.abs(w_)) + np.max(np.abs(y)) + 1.0
+            e = float(np.max(np.abs(g_ - w_))) / (tol * sc) if g_.size else 0.0
+            ctx.ratio("forms", e, 1.0)
+            if not e <= 1:
+                raise Violation(f"forms:{meth}:" + "+".join(sorted({v for v in f.values() if v != "float64"})), f"{case['mean']} mean, noise {case['noise']}: {meth}() {name} from [{what}] "
+                                f"is {g_.ravel()[:4].tolist()}, from float64 arrays of the same numbers {w_.ravel()[:4].tolist()}")
+    ctx.nontrivial(any(v in ("int64", "int32") for v in f.values()))
+    for k, v in f.items():
+        ctx.event(f"{k}:{v}")
+
+
 SUBCHECKS = [
     Sub("derivatives", problems, body_derivatives, quick=2500, thorough=60000, shards_quick=10, shards_thorough=16,
         rule="non-constant mean, or d >= 2, or batched query; kappa <= 1e6"),
@@ -264,4 +322,6 @@ SUBCHECKS = [
         rule="kernel without derivative support (RQ, white noise, sums, change-points)"),
     Sub("history", lambda t: history_cases(), body_history, quick=600, thorough=20000, shards_quick=6, shards_thorough=16,
         rule="one regressor whose hyper-parameters were switched at least once between derivative predictions"),
+    Sub("forms", lambda t: form_cases(), body_forms, quick=600, thorough=20000, shards_quick=6, shards_thorough=16,
+        rule="some of x, y, errors, queries held in an integer array"),
 ]
